@@ -57,7 +57,8 @@ Proof. reflexivity. Qed.
 
 (** * Clean rejection *)
 
-(** classes a library oracle may raise; the harness observes exactly these on every resolved value *)
+(** classes a library oracle may raise (the PEM loaders also cryptography's UnsupportedAlgorithm); the harness
+    observes exactly these on every resolved value *)
 Definition lib_exc (e : exc) : bool :=
   match e with ValueError | TypeError | AttributeError | KeyError => true | _ => false end.
 
@@ -65,8 +66,8 @@ Record env_ok (E : env) : Prop := {
   ok_getaddrinfo : forall v e, o_getaddrinfo E v = Raise e -> lib_exc e = true \/ e = GaiError;
   ok_ip_address : forall v e, o_ip_address E v = Raise e -> lib_exc e = true;
   ok_ip_network : forall v e, o_ip_network E v = Raise e -> lib_exc e = true;
-  ok_pubkey : forall s e, o_pubkey E s = Raise e -> lib_exc e = true;
-  ok_privkey : forall s e, o_privkey E s = Raise e -> lib_exc e = true
+  ok_pubkey : forall s e, o_pubkey E s = Raise e -> lib_exc e = true \/ e = UnsupportedAlgorithm;
+  ok_privkey : forall s e, o_privkey E s = Raise e -> lib_exc e = true \/ e = UnsupportedAlgorithm
 }.
 
 (** classes that Configuration.__init__ turns into ConfigurationError (or that are ConfigurationError) *)
@@ -191,11 +192,12 @@ Proof.
 Qed.
 
 Lemma rs_load_opt_key d k loader :
-  (forall s e, loader s = Raise e -> lib_exc e = true) -> raises_safe (load_opt_key d k loader).
+  (forall s e, loader s = Raise e -> lib_exc e = true \/ e = UnsupportedAlgorithm) ->
+  raises_safe (load_opt_key d k loader).
 Proof.
   intros Hl. unfold load_opt_key. apply rs_bind; [apply rs_py_get|intros o]. destruct o; [|apply rs_ok].
   apply rs_bind; [apply rs_py_encode|intros pem]. apply rs_bind; [|intros; apply rs_ok].
-  intros e H. apply lib_safe. exact (Hl _ _ H).
+  intros e H. destruct (Hl _ _ H) as [Hx| ->]; [apply lib_safe; exact Hx|reflexivity].
 Qed.
 
 Lemma rs_load_auth_conf d : raises_safe (load_auth_conf E d).
@@ -603,7 +605,7 @@ Definition example_env : env :=
                               | _ => Raise ValueError
                               end;
      o_ip_network := fun _ => Raise ValueError;
-     o_pubkey := fun _ => Raise ValueError;
+     o_pubkey := fun _ => Raise UnsupportedAlgorithm;
      o_privkey := fun _ => Raise TypeError;
      o_int_nonascii := fun _ => None;
      o_randint := fun _ => 77 |}.
@@ -616,8 +618,8 @@ Proof.
     destruct (String.eqb s "10.0.0.1"); [discriminate|]. destruct (String.eqb s "10.0.0.2"); [discriminate|].
     inversion H; reflexivity.
   - intros v e H; inversion H; reflexivity.
-  - intros v e H; inversion H; reflexivity.
-  - intros v e H; inversion H; reflexivity.
+  - intros v e H; inversion H; right; reflexivity.
+  - intros v e H; inversion H; left; reflexivity.
 Qed.
 
 Definition example_conn (extra : list (pv * pv)) : pv :=
